@@ -277,7 +277,7 @@ struct ConcPlan
                 }
                 if (!tr.has_peek)
                     o.peek = false;
-                if (!tr.iter_forms && o.form >= 3)
+                if (!tr.iter_forms && (o.form == 3 || o.form == 4))
                     o.form = 0;
                 if (cfg.cont == Cont::tlru && o.kind == OpKind::insert_range && o.form == 2)
                     o.form = 0;
